@@ -3,9 +3,11 @@
    which no numerical guard is active" is the hypothesis [forall i < j, Guard (fit_from E M i t)] of C02_em_monotone.
    Not proved (contracts evaluated per step by the correspondence): that the full-covariance Gaussian, cACG matrix
    and Watson-spline M-steps satisfy Q(new|old) >= Q(old|old); proved: weight, diagonal/spherical Gaussian steps,
-   the cACG minoriser. *)
+   the cACG minoriser; and, with no hypothesis about the M-step left, the whole EM iteration of the diagonal-covariance
+   GMM (theorems C02_gmm_diagonal_...). *)
 From Coq Require Import Reals Lra.
-From PB Require Import Ops CLin Model.EM Model.Loglik Proofs.EM Proofs.EMAscent Proofs.Loglik.
+From PB Require Import Ops CLin Model.EM Model.Loglik Proofs.EM Proofs.EMAscent Proofs.Loglik Proofs.GMMAscent Proofs.GMMRefine.
+From PB Require Import Model.GMMLoop.
 Open Scope R_scope.
 
 (* Jensen / Gibbs, pointwise: sum_k gamma_k (ln p'_k - ln p_k) <= ln sum p' - ln sum p *)
@@ -58,6 +60,53 @@ Theorem C02_em_monotone (Theta Gamma : Type) (E : Theta -> Gamma) (M : Gamma -> 
   loglik N K sal (J t) <= loglik N K sal (J (fit_from E M j t)).
 Proof. intros HK Hs HJ HJ' HQ j t HG. eapply em_monotone; eauto. Qed.
 Print Assumptions C02_em_monotone.
+
+(* A fully discharged instance: the diagonal-covariance GMM.  One E-step (Bayes posterior of the current model) followed
+   by the model's M-step (Model/Trainers.v g_mean, g_cov_diag; Model/Posterior.v weight_sal) never decreases
+   sum_n ln sum_k pi_k N(y_n; mu_k, diag v_k) -- for every K, D, N, data y and current model, with no assumption about the
+   M-step: only "no numerical guard active" (class masses above the floor, new variances positive). *)
+Theorem C02_gmm_diagonal_em_step_ascent (K' D N : nat) (tiny epsw : R) (y : nat -> nat -> R)
+    (w : nat -> R) (mu v : nat -> nat -> R) :
+  (0 < N)%nat -> (forall k, (k < S K')%nat -> 0 < w k) -> rsum (S K') w = 1 ->
+  (forall k d, (k < S K')%nat -> (d < D)%nat -> 0 < v k d) ->
+  (forall k, (k < S K')%nat -> tiny <= rsum N (fun n => gam K' D y w mu v n k)) ->
+  (forall k d, (k < S K')%nat -> (d < D)%nat -> 0 < v' K' D N tiny y w mu v k d) ->
+  loglik N (S K') (fun _ => 1) (joint D y w mu v)
+  <= loglik N (S K') (fun _ => 1) (joint D y (w' K' D N epsw y w mu v) (mu' K' D N tiny y w mu v) (v' K' D N tiny y w mu v)).
+Proof. intros HN Hw Hs Hv Hm Hv2. eapply gmm_diag_em_step_ascent; eauto. Qed.
+Print Assumptions C02_gmm_diagonal_em_step_ascent.
+
+(* ... and by induction over the iteration history, for every number of iterations *)
+Theorem C02_gmm_diagonal_em_monotone (K' D N : nat) (tiny epsw : R) (y : nat -> nat -> R) (j : nat) (t : theta) :
+  (0 < N)%nat ->
+  (forall i, (i < j)%nat -> gmm_guard K' D N tiny epsw y (Nat.iter i (gmm_step K' D N tiny epsw y) t)) ->
+  gmm_loglik K' D N y t <= gmm_loglik K' D N y (Nat.iter j (gmm_step K' D N tiny epsw y) t).
+Proof. intros HN HG. eapply gmm_diag_em_monotone; eauto. Qed.
+Print Assumptions C02_gmm_diagonal_em_monotone.
+
+(* the new weights are again a strictly positive distribution (so the guard's first two clauses propagate) *)
+Theorem C02_gmm_diagonal_new_weights (K' D N : nat) (epsw : R) (y : nat -> nat -> R) (w : nat -> R) (mu v : nat -> nat -> R) :
+  (0 < N)%nat -> (forall k, (k < S K')%nat -> 0 < w k) -> rsum (S K') w = 1 ->
+  (forall k d, (k < S K')%nat -> (d < D)%nat -> 0 < v k d) ->
+  (forall k, (k < S K')%nat -> 0 < w' K' D N epsw y w mu v k) /\ rsum (S K') (w' K' D N epsw y w mu v) = 1.
+Proof. intros HN Hw Hs Hv. eapply gmm_diag_new_weights_distribution; eauto. Qed.
+Print Assumptions C02_gmm_diagonal_new_weights.
+
+(* ... and the same statement about the EXECUTABLE whole-loop model of GMMTrainer (Model/GMMLoop.v gmm_fit: the function the
+   correspondence check runs on binary64 against fit(..., iterations=n) of the implementation), read on the real-number
+   instance: for every start affiliation g0 and every iteration count the log-likelihood after 1+j iterations is at least
+   the one after the first, provided no guard (posterior floor, mass floor, variance positivity) was active on the way *)
+Theorem C02_gmm_loop_model_monotone (K' D N : nat) (tiny tinyw : R) (y : nat -> nat -> R) (g0 : list (list R)) (j : nat) :
+  0 < tiny -> (0 < N)%nat ->
+  (forall i, (i < j)%nat -> model_guard K' D N tiny tinyw y (gmm_fit RO K' D N tiny tinyw (2 * PI) y (S i) g0)) ->
+  mloglik K' D N y (gmm_fit RO K' D N tiny tinyw (2 * PI) y 1 g0)
+  <= mloglik K' D N y (gmm_fit RO K' D N tiny tinyw (2 * PI) y (S j) g0).
+Proof. intros Ht HN HG. eapply gmm_fit_monotone; eauto. Qed.
+Print Assumptions C02_gmm_loop_model_monotone.
+
+(* the guard of the GMM theorems is met by a concrete two-class model *)
+Example C02_gmm_guard_satisfiable : gmm_guard 1 1 2 (/ 2) (/ 2) ex_y ex_t.
+Proof. exact gmm_guard_satisfiable. Qed.
 
 (* the log_likelihood method (weights included) IS that mixture log-likelihood *)
 Theorem C02_log_likelihood_method (N K' : nat) (w l : nat -> nat -> R) :
